@@ -1378,6 +1378,11 @@ dt_strfddur(char *restrict buf, size_t bsz, const char *fmt, struct dt_ddur_s th
 	}
 	/* translate high-level format names */
 	__trans_ddurfmt(&fmt);
+	if (UNLIKELY(fmt == NULL)) {
+		/* no default format for this kind of duration */
+		bp = buf;
+		goto out;
+	}
 
 	/* assign and go */
 	bp = buf;
